@@ -100,6 +100,7 @@ def build(ctx):
     # extreme data length: the member after a <data> whose length is at the top of its (uint8) length type
     for (xml, std, mode) in c02.plan(ctx)[:2 if ctx.quick else None]:
         sch, inc = hgen.gen_headers(ctx, xml)
+        if not [m_ for m_ in sch.messages if m_.name == "odd"]: continue
         msg = sch.message("odd")
         g = msggen.MG(sch, msg, 1)
         u = ctx.lower("c01_%s_%s" % (sch.ns, msg.name), g.cpp_prelude() + g.cpp_getset(setters=True) + g.cpp_geom(mutators=True), std=std, mode=mode, incs=[inc])
